@@ -489,9 +489,18 @@ func (f *Func) reachTarget(
 			case *valueVertex:
 				if pathIdx > 0 {
 					prev := path[pathIdx-1]
-					if r, ok := prev.(*typedOutputVertex); ok {
+					switch r := prev.(type) {
+					case *typedOutputVertex:
 						log.Trace("setting node value", "value", r.Value)
 						v.Value = r.Value
+
+					case *valueVertex:
+						// A named value without a subtype takes the value of
+						// the same-named value with a subtype it follows.
+						if r.Value.IsValid() {
+							log.Trace("setting node value", "value", r.Value)
+							v.Value = r.Value
+						}
 					}
 				}
 
